@@ -1,11 +1,18 @@
 import Driver.JsonUtil
 import Driver.Agg
 import Driver.EvmInt
+import Driver.Mercury
+import Driver.EvmCodec
+import Driver.Codecs
+import Driver.Mtls
+import Driver.LLO
+import Driver.Cost
 open Lean
 namespace Driver
 
 /-- all op handlers; each returns `none` when the op name is not its own -/
-def handlers : List (String → Json → Option (P Json)) := [handleAgg, handleEvmInt]
+def handlers : List (String → Json → Option (P Json)) :=
+  [handleAgg, handleEvmInt, handleMercury, handleEvmCodec, handleCodecs, handleMtls, handleLLO, handleCost]
 
 def dispatch (op : String) (j : Json) : P Json :=
   match handlers.findSome? (fun h => h op j) with
